@@ -152,7 +152,15 @@ class ReaderSuite(Suite):
             out["open"] = {"outcome": "exc", "exc": type(e).__name__, "msg": str(e)[:200]}
             return out
         out["size"] = int(v.size)
-        for kind, a, b in case["reqs"]:
+        for k, (kind, a, b) in enumerate(case["reqs"]):
+            # the file objects belong to the caller, who may use them between two reads of the disk (hashing the
+            # container, another reader object on the same handle): every access positions the handle itself
+            for j, fo in enumerate(files.values()):
+                if hasattr(fo, "seek") and hasattr(fo, "size") and k % 2 == 1:
+                    try:
+                        fo.seek((a * 7 + k * 4099 + j) % max(1, int(fo.size)))
+                    except Exception:  # noqa: BLE001
+                        pass
             if kind == "sectors":
                 out["reqs"].append(call(self.sectors_call, v, a, b))
             elif kind == "raw":
